@@ -163,6 +163,14 @@ def oracle(hist, records):
         for g, spec_g in byid.items():
             if not spec_g.get("gen") or g not in pos:
                 continue
+            bad_kids = [k["id"] for k in spec["tasks"] if k.get("parent") == g and k.get("uncollectable")]
+            if bad_kids and g in starts and not spec_g.get("fails"):
+                # a defined task that cannot be collected is not dropped silently: the generator fails, nothing it defined runs
+                fixed = [k["id"] for k in spec["tasks"] if k.get("parent") == g]
+                if outcome[g] != "FAIL":
+                    bad.append(("generated", f"build {bi}: generator {g} defined task(s) {bad_kids} that cannot be collected but was reported {outcome[g]}", None))
+                if any(k in pos for k in fixed):
+                    bad.append(("generated", f"build {bi}: generator {g} failed to collect {bad_kids} but tasks it defined were run: {[k for k in fixed if k in pos]}", None))
             if outcome[g] == "SUCCESS" and g in rline:
                 kids = [k["id"] for k in spec["tasks"] if k.get("parent") == g]
                 if g in perfile:
@@ -218,7 +226,8 @@ def oracle(hist, records):
                 elif st.get("gen"):
                     nkids = len([k for k in spec["tasks"] if k.get("parent") == t])
                     got_any = t in rline and any(rline[t][0])
-                    excused = st.get("fails") or (nkids == 0 and not (t in perfile and got_any))
+                    excused = st.get("fails") or (nkids == 0 and not (t in perfile and got_any)) or \
+                        any(k.get("uncollectable") for k in spec["tasks"] if k.get("parent") == t)
                 else:
                     need = list(st["deps"]) + ([st["cnt"]] if st.get("cnt") is not None else [])
                     excused = st.get("fails") or any(d not in rec["post"] or d not in rec["pre"] and d in spec["inputs"] for d in need)
@@ -295,7 +304,13 @@ def corpus():
             "spec": {"pats": {str(al): {"dir": 0, "kind": "all"}}, "tasks": [_t(1, pdeps=[al], prods=[200]), _t(2, pdeps=[al], gen=True)],
                      "perfile": {"2": 20000}, "inputs": {}, "version": 0, "dirnames": {"0": "d0[x]"}, "dataname": "da*ta[1]"},
             "steps": [["write", 1000, 5], ["write", 1010, 6], ["build"], ["write", 1011, 7], ["build"], ["build"]]}
-    return [f11, f11b, f13, mix, pers, gf1, gf1, gf2, gf2, aft, aft, meta]
+    # a generator defining a task that cannot be collected (both priority marks) next to a good one: it fails, nothing is added
+    unc = {"tag": "corpus-uncollectable-child",
+           "spec": {"pats": pats, "tasks": [_t(1, cnt=100, pprods=[f0]), _t(2, pdeps=[f0], gen=True), _t(3, deps=[102], prods=[210], parent=2),
+                                            _t(4, deps=[102], prods=[211], parent=2, uncollectable=True), _t(5, pdeps=[f0], prods=[212])],
+                    "perfile": {"2": 20000}, "inputs": {"100": 2, "102": 4}, "version": 0},
+           "steps": [["build"], ["build"]]}
+    return [f11, f11b, f13, mix, pers, gf1, gf1, gf2, gf2, aft, aft, meta, unc]
 
 
 def gen_genfail(rng):
